@@ -18,7 +18,7 @@ var lengthTargets = []int{9, 10, 11, 98, 99, 100, 101, 998, 999, 1000, 1001, 999
 
 func main() {
 	c := vk.Init("C01")
-	c.Rule("case i: PRNG(seed,i) draws template+population+values as in C17 (arbitrary or 8/9/35/10 framing tags, header/body/trailer empty or not); one String field is then padded so that BodyLength lands on a drawn target among {9,10,11,98..101,998..1001,9999..10001} and one byte nudged so that the checksum hits a drawn residue; plus every tests/fix44 type. Oracle: fixref.CheckFrame on the emitted bytes alone. distinct = hash(shape, wire bytes); non-trivial = at least one populated non-framing field")
+	c.Rule("case i: PRNG(seed,i) draws template+population+values as in C17 (arbitrary or 8/9/35/10 framing tags, header/body/trailer empty or not); one String field is then padded so that BodyLength lands on a drawn target among {9,10,11,98..101,998..1001,9999..10001} and one byte nudged so that the checksum hits a drawn residue; plus every tests/fix44 type; every message object is then updated in place through its setters / AddEntry and serialized again. Oracle: fixref.CheckFrame on the emitted bytes alone. distinct = hash(shape, wire bytes); non-trivial = at least one populated non-framing field")
 	c.Assume("fixref.CheckFrame (written from the FIX definition of BodyLength/CheckSum) is the trusted base")
 	n := c.Pick(20000, 1000000)
 	nf44 := c.Pick(200, 2000)
@@ -162,6 +162,17 @@ func main() {
 		m, _ = mp.Build()
 		wire, err, pan = gen.Serialize(m)
 		judge("template+steered", i, t.FT, t.Shape(), wire, err, pan, mp.Describe(), true, emp)
+		// the same message object, updated in place (setters on its existing values, new group entries) and serialized again
+		for round := 0; round < 2; round++ {
+			exp2, _ := gen.PopulateLib(r, m, oo, true)
+			wire, err, pan = gen.Serialize(m)
+			var d2 []string
+			for _, e := range exp2 {
+				d2 = append(d2, e.Path+":"+e.String())
+			}
+			judge("template+updated-in-place", i, t.FT, t.Shape(), wire, err, pan, "after in-place updates: "+strings.Join(d2, " | "), true, "reserialized")
+			c.Count("reserializations_after_in_place_update", 1)
+		}
 		if c.WantSample() && i%1000 == 3 {
 			c.Sample(map[string]interface{}{"index": i, "population": vk.Trunc(mp.Describe(), 300), "wire": vk.Trunc(fixref.Pretty(wire), 300)})
 		}
@@ -178,6 +189,15 @@ func main() {
 			d = append(d, e.Path+":"+e.String())
 		}
 		judge("fix44/"+ty.Name, i, fixref.Std, "fix44/"+ty.Name, wire, err, pan, strings.Join(d, " | "), len(exp) > 0, "fix44")
+		// update the same object in place and serialize it again (e.g. a reused message whose MsgSeqNum grows from 9 to 10)
+		exp2, _ := gen.PopulateLib(r, m, o, true)
+		wire, err, pan = gen.Serialize(m)
+		d = d[:0]
+		for _, e := range exp2 {
+			d = append(d, e.Path+":"+e.String())
+		}
+		judge("fix44/"+ty.Name+"+updated-in-place", i, fixref.Std, "fix44/"+ty.Name, wire, err, pan, "after in-place updates: "+strings.Join(d, " | "), len(exp2) > 0, "fix44")
+		c.Count("reserializations_after_in_place_update", 1)
 		c.SetAdd("fix44_types", ty.Name)
 	})
 
